@@ -43,6 +43,9 @@ class Obligation:
         self.expect_sat = False  # cover / canary obligations
 
 
+FIELD_AXIOMS = {}  # id(FieldMap) -> well-formedness axiom (shared by all paths of a unit)
+
+
 class FieldMap:
     """heap field as closure ref-expr -> SV"""
 
@@ -140,21 +143,41 @@ class Path:
             if fm is None:
                 fm = ex.initial_field(field)
                 self.entry_heap[field] = fm
+                self.assume_field_wf(fm, field)
             if field not in self.heap:
                 self.heap[field] = fm
+        ax = FIELD_AXIOMS.get(id(fm))
+        if ax is not None:
+            self.assume(ax)
         e = ref.e if isinstance(ref, sv.SV) else ref
         v = fm.get(e)
         for c in sv.wf(v):
             self.assume(c)
         return v
 
+    def assume_field_wf(self, fm, field):
+        """lengths of list-valued fields are non-negative on every object"""
+        r = z3.Int("wf!r")
+        v = fm.get(r)
+        facts = []
+        if isinstance(v, sv.SList):
+            facts.append(v.n >= 0)
+        elif isinstance(v, sv.SDict):
+            facts.append(v.keys.n >= 0)
+        if facts:
+            ax = z3.ForAll([r], sv.And(*facts))
+            FIELD_AXIOMS[id(fm)] = ax
+            self.assume(ax)
+
     def heap_set(self, ex, ref, field, v):
         fm = self.heap.get(field)
         if fm is None:
-            fm = ex.initial_field(field)
-            self.heap[field] = fm
-            if field not in self.entry_heap:
+            fm = self.entry_heap.get(field)
+            if fm is None:
+                fm = ex.initial_field(field)
                 self.entry_heap[field] = fm
+                self.assume_field_wf(fm, field)
+            self.heap[field] = fm
         e = ref.e if isinstance(ref, sv.SV) else ref
         self.heap[field] = fm.set(e, v)
         self.heap_epoch += 1
@@ -168,6 +191,7 @@ class Path:
             if field not in self.entry_heap:
                 self.entry_heap[field] = old
             self.heap[field] = FieldMap(lambda r, ty=ty, name=name: sv.mk(ty, name, (r,)), old.writes + (None,))
+            self.assume_field_wf(self.heap[field], field)
         else:
             e = ref.e if isinstance(ref, sv.SV) else ref
             self.heap_set(ex, e, field, sv.mk(ty, name, ()))
